@@ -229,10 +229,18 @@ def run(rep):
     rep.extra["canaries_rejected"] = [c[0] for c in cans]
     # every substitution the frozen test-suite corpus triggers (hook events; output-side clauses are for the generator's own forms)
     _rp.corpus_part(rep, PROP, refs=True)
+    # the lexical side: which texts are references at all (RefSyntax.tla) - well-formed references are accepted and each one substituted
+    from harness.props import _refsyntax
+
+    _refsyntax.part(rep, PROP)
 
 
 def replay(rep, case):
     c = case["case"]
+    if c.get("refsyntax"):
+        from harness.props import _refsyntax
+
+        return _refsyntax.replay(rep, PROP, c)
     outs = corpus.run_forms([{"wb": c["wb"], "fmt": "dict", "refs": True, "tag": c.get("tag"), "shapes": ["replay"]}])
     sub, acc, rejected = _rp.validate(rep, PROP, outs, "replay")
     for o, l, clause in rejected:
